@@ -90,6 +90,9 @@ def seg_alphabet(svg, m):
         "arc-scaled": lambda: A(P(0, 0), 1 * m, 2 * m, 40, 0, 1, P(9, 5)),
         "arc-full": lambda: A(P(5, 0), P(5, 0), P(0, 0), P(5, 0), P(0, 3), math.tau),
         "arc-7rad": lambda: A(start=P(4, 0), center=P(0, 0), prx=P(4, 0), pry=P(0, 2), sweep=-7.0),
+        # degenerate arcs (SVG F.6.2): a zero radius is the straight line, coincident end points draw nothing
+        "arc-rx0": lambda: A(P(0, 0), 0, 5 * m, 0, 0, 1, P(7, 4)),
+        "arc-same": lambda: A(P(3, -2), 5 * m, 8 * m, 30, 0, 1, P(3, -2)),
         "move": lambda: svg.Move(P(1, 1), P(3, -2)),
         "close": lambda: svg.Close(P(3, -2), P(1, 1)),
     }
